@@ -4,7 +4,7 @@ import json, glob, os, csv, collections
 res = collections.defaultdict(list)
 for f in sorted(glob.glob('/verif/seeded/RESULTS*.tsv')):
     for row in csv.DictReader(open(f), delimiter='\t'):
-        res[row['seeded']].append(row)
+        if row['exit'] != '-': res[row['seeded']].append(row)
 print("| seeded change | property | what it changes / needs to manifest | caught by (quick tier; violation lines) | missed by |")
 print("|---|---|---|---|---|")
 for d in sorted(glob.glob('/verif/seeded/*/')):
